@@ -342,7 +342,8 @@ def step (ds : DS) (op impl : String) : DS × StepOut :=
       -- the model may create fewer ports when a send fails; keep port numbering aligned
       let m' := Rpc.step ds.m (.mcall as t)
       let pad := (base + as.length) - m'.calls.length
-      let m'' := { m' with calls := m'.calls ++ List.replicate pad ⟨0, none, .dropped, some .abandoned, some (m'.groups - 1), none⟩ }
+      let m'' := { m' with calls := m'.calls ++ (List.range pad).map (fun i =>
+        ⟨0, none, .dropped, some .abandoned, some (m'.groups - 1), none, m'.calls.length + i⟩) }
       finish m'' "ok" o' true
     | _, _ => (ds, { model := "bad-op" })
   | ["handle", a, act] =>
